@@ -9,6 +9,7 @@ The observation IS the property, so any difference is the replay:
  (f) hostile join-table identifiers through SqliteDbRegistry / SqliteRecordIterator: the statement that reaches
      sqlite is compared with the Lean whitelist model `sqliteStatement` (only [A-Za-z0-9_]* identifiers)."""
 import json
+import os
 import random
 import subprocess
 
@@ -317,6 +318,46 @@ def js_undefined_cells(res):
     res.count('js_undefined_cell_failures', nbad)
 
 
+def interactive_cli_check(res):
+    """`python -m rbql` WITHOUT --query (interactive mode: preview, one query read from stdin, result saved to a DEFAULT output path derived from the input
+    path): the input file is byte for byte the same afterwards, whatever its name says about its format and whatever --out-format asks for"""
+    import tempfile, shutil, hashlib
+    combos = []
+    for fname, delim, content in (('table.csv', ';', 'a;b\n1;2\n3;4\n'), ('table.csv', ',', 'a,b\n1,2\n'), ('table.tsv', ',', 'a,b\n1,2\n'), ('table.tsv', 'TAB', 'a\tb\n1\t2\n'),
+                                 ('table.txt', ';', 'a;b\n1;2\n'), ('noext', ',', 'a,b\n1,2\n')):
+        for fmt in ('input', 'csv', 'tsv'):
+            combos.append((fname, delim, content, fmt))
+
+    def one(cb):
+        fname, delim, content, fmt = cb
+        d = tempfile.mkdtemp(prefix='rbqlverif_c06i_')
+        try:
+            inp = os.path.join(d, fname)
+            open(inp, 'w').write(content)
+            before = hashlib.sha256(open(inp, 'rb').read()).hexdigest()
+            env = common.impl_env(); env['HOME'] = d
+            r = subprocess.run([common.PY, '-W', 'ignore', '-m', 'rbql', '--input', inp, '--delim', delim, '--policy', 'quoted' if delim in ',;' else 'simple', '--out-format', fmt],
+                               input=b'select a1, a2\n', env=env, cwd=d, stdout=subprocess.PIPE, stderr=subprocess.STDOUT, timeout=120)
+            after = hashlib.sha256(open(inp, 'rb').read()).hexdigest() if os.path.exists(inp) else 'missing'
+            return {'same': before == after, 'files': sorted(os.listdir(d)), 'rc': r.returncode, 'tail': r.stdout.decode('utf-8', 'replace')[-200:]}
+        finally:
+            shutil.rmtree(d, ignore_errors=True)
+    from concurrent.futures import ThreadPoolExecutor
+    with ThreadPoolExecutor(max_workers=common.NPROC) as ex:
+        outs = list(ex.map(one, combos))
+    nbad = 0
+    for cb, o in zip(combos, outs):
+        res.evaluations += 1
+        res.nontrivial.add(('interactive', cb[0], cb[1], cb[3]))
+        if not o['same'] or 'Success' not in o['tail']:
+            nbad += 1
+            if nbad <= 2:
+                res.violations.append({'property': 'C06', 'impl': 'py', 'why': 'interactive command line session: the input file changed (or the session did not complete)', 'input_file': cb[0], 'delim': cb[1],
+                                       'content': cb[2], 'out_format': cb[3], 'observed': o, 'case_key': 'C06|interactive|%s|%s|%s' % (cb[0], cb[1], cb[3])})
+    res.count('interactive_sessions', len(combos))
+    res.count('interactive_session_failures', nbad)
+
+
 def js_nested_csv():
     r = subprocess.run([common.NODE, '-e', JS_NESTED], env=common.impl_env(), stdout=subprocess.PIPE, stderr=subprocess.PIPE, timeout=300)
     try:
@@ -419,6 +460,7 @@ def run(res, tier, seed):
             break
     column_names_untouched_check(res)
     js_undefined_cells(res)
+    interactive_cli_check(res)
     # (c) pandas, (d) sqlite file, (e) CSV files
     rect = [c for c in cases if c['A'] and len(set(len(r) for r in c['A'])) == 1 and all(isinstance(x, str) for r in c['A'] for x in r)
             and (c.get('B') is None or (c['B'] and all(len(r) == 2 and all(isinstance(x, str) for x in r) for r in c['B'])))][:300 if tier == 'quick' else 3000]
